@@ -179,6 +179,17 @@ func (en *Engine) VerifyFunction(fn *ssa.Function, fc *FuncContract, pc *PkgCont
 				fail("contract of %s binds %s to unknown global %s", res.Func, p.Name(), g)
 			}
 			v = en.load(st, PtrV{R: en.globalRegion(gv)}, p.Type())
+			// the parameter starts at the same element of the same array as the global slice, with a
+			// length and capacity of its own (a prefix or an extension of it)
+			if gs, ok := v.(SliceV); ok && gs.R != nil {
+				ln := FreshVar(p.Name()+".len", SInt)
+				cp := FreshVar(p.Name()+".cap", SInt)
+				st.assume(Le(ConstI(0), ln))
+				st.assume(Le(ln, cp))
+				st.assume(Le(cp, gs.Cap))
+				gs.Len, gs.Cap = ln, cp
+				v = gs
+			}
 			en.curFunc += "{" + p.Name() + "==" + g + "}"
 		} else if g, ok := fc.Binds[p.Name()]; ok {
 			gv := en.lookupGlobal(fn.Pkg.Pkg.Path(), g)
